@@ -861,9 +861,53 @@ def c12_log_regex(prog: Program, run: Run) -> None:
     # id from group 2, data from group 3, both fed into decode_rx_frame
     calls = [x for x in walk_no_nested(f.node) if isinstance(x, ast.Call) and call_name(x) ==
              "decode_rx_frame"]
-    if len(calls) < 3:
+    # every frame obtained (bus.recv() / a matched line whose ID was parsed) reaches a
+    # decode_rx_frame call before the next frame is read -- however the branches are arranged
+    cfg = CFG(f.node)
+    via = set()
+    whiles = []
+    for node in cfg.nodes:
+        scope = node.expr if node.kind in ("for", "while", "if", "with") else node.stmt
+        if node.kind == "while":
+            whiles.append(node.id)
+        if scope is not None and any(isinstance(x, ast.Call) and call_name(x) ==
+                                     "decode_rx_frame" for x in ast.walk(scope)):
+            via.add(node.id)
+    sources = []
+    for node in cfg.nodes:
+        st = node.stmt
+        if node.kind != "stmt" or not isinstance(st, ast.Assign) or not isinstance(
+                st.targets[0], ast.Name):
+            continue
+        if isinstance(st.value, ast.Call) and call_name(st.value) == "recv":
+            # `if msg is None: continue` -- nothing was received
+            none_skips = set()
+            for n2 in cfg.nodes:
+                if n2.kind == "stmt" and isinstance(n2.stmt, ast.Continue) and any(
+                        pol and norm_test(t) == norm_test(ast.parse(
+                            f"{st.targets[0].id} is None", mode="eval").body)
+                        for t, pol in cfg.branch_conditions(n2.id)):
+                    none_skips.add(n2.id)
+            sources.append(("bus", node.id, none_skips, st))
+        elif any(isinstance(x, ast.Call) and call_name(x) == "group" for x in ast.walk(
+                st.value)) and any(isinstance(x, ast.Constant) and x.value == 16
+                                   for x in ast.walk(st.value)) and \
+                st.targets[0].id == "frame_id":
+            sources.append(("line", node.id, set(), st))
+    kinds = [k for k, *_ in sources]
+    lost = [st for _k, nid, skips, st in sources
+            if not all(cfg.must_pass(nid, via | skips, d) for d in whiles + [EXIT])]
+    if kinds.count("bus") < 1 or kinds.count("line") < 2 or len(uses) < 3:
         run.violation(R, "IsoTpStateMachine.read_telegrams", "decode-calls",
                       "not every input kind (bus, candump, log) feeds decode_rx_frame", f.loc)
+    elif lost:
+        run.violation(R, "IsoTpStateMachine.read_telegrams", "decode-calls",
+                      f"the frame obtained by `{stmt_key(lost[0])}` can reach the next read "
+                      "without being fed into decode_rx_frame: not every input kind (bus, "
+                      "candump, log) feeds decode_rx_frame", loc(f, lost[0]))
+    else:
+        run.ok(R, "read_telegrams", f"every frame obtained ({len(sources)} sources) reaches "
+               "decode_rx_frame before the next one is read", f.loc)
     for c in calls:
         st = _stmt_of(f.node, c)
         loop_ok = isinstance(st, ast.For) or any(isinstance(p, ast.For) and any(
